@@ -131,3 +131,30 @@ def graph_of(sched):
     ids = [j.v_id for j in sched.jobs]
     edges = [(r.v_id, j.v_id) for j in sched.jobs for r in j.required]
     return ids, edges
+
+
+def sparse_edges(n, seed, back=0):
+    """about 2n edges a -> b with a < b (acyclic), from a drawn seed; `back` extra edges
+    b -> a make it cyclic.  Used for the occasional wide graph: drawing every pair through
+    Hypothesis would exceed the entropy it allows for one example."""
+    state = [seed % (2 ** 31) or 1]
+
+    def lcg():
+        state[0] = (state[0] * 1103515245 + 12345) % (2 ** 31)
+        return state[0] >> 8
+    edges = set()
+    for b in range(1, n):
+        for _ in range(lcg() % 4):
+            edges.add((lcg() % b, b))
+    if n > 260 and lcg() % 2:
+        # one job with more than 256 requirements, one required by more than 256 jobs
+        for a in range(n - 1):
+            edges.add((a, n - 1))
+        for b in range(1, n):
+            edges.add((0, b))
+    out = [[a, b] for a, b in sorted(edges)]
+    for _ in range(back):
+        a = lcg() % (n - 1)
+        b = a + 1 + lcg() % (n - 1 - a)
+        out.append([b, a])
+    return out
